@@ -16,14 +16,14 @@ def plan(tier):
     p.injections = [("src/graph/property.rs", "c10.rs", "verif_kani_c10", MOD)]
     scalars = [0, 1, 2, 3, 4, 5, 7]
     if tier == "quick":
-        unary = scalars + [6, 8, 10, 13, 14]
+        unary = scalars + [6, 8, 10, 11, 13, 14]
         pair_tags = scalars + [10, 14]
-        pairs = [(a, b) for a in pair_tags for b in pair_tags]
+        pairs = [(a, b) for a in pair_tags for b in pair_tags] + [(11, 11), (8, 8), (15, 15), (10, 11), (11, 10)]
         # triples: everything inside the numeric bucket, plus each scalar bucket against the numeric pair
         trip = [(a, b, c) for a in (1, 2) for b in (1, 2) for c in (1, 2)]
         for x in (0, 3, 4, 5, 7):
             trip += [(x, 1, 2), (1, x, 2), (2, 1, x), (x, x, x)]
-        trip += [(14, 14, 14), (10, 10, 10), (13, 14, 13)]
+        trip += [(14, 14, 14), (10, 10, 10), (13, 14, 13), (11, 11, 11), (10, 11, 11), (15, 15, 15), (8, 8, 8)]
         ctrip = list(trip)
     else:
         unary = list(TAGS)
